@@ -178,10 +178,12 @@ theorem emit_post {bs : Bytes} (failAt : Option Nat) (st : St) (flag : Nat) (byt
   unfold emit
   simp only
   split
-  · refine post_fail _ _ [] rest ?_ ?_
-    · rw [← h1]; simp [fail, flat, List.append_assoc]
-    · rw [walk_push]; exact h2
   · exact hk _ rfl rfl
+  · split
+    · refine post_fail _ _ [] rest ?_ ?_
+      · rw [← h1]; simp [fail, flat, List.append_assoc]
+      · rw [walk_push]; exact h2
+    · exact hk _ rfl rfl
 
 theorem split_at {rest : Bytes} {n : Nat} (h : n ≤ rest.length) : rest = rest.take n ++ rest.drop n :=
   (List.take_append_drop n rest).symm
